@@ -55,8 +55,15 @@ pub fn uncompact(cells: &[u64], target_resolution: i32) -> Result<Vec<u64>, Stri
         n += get_num_children(resolution, target_resolution);
     }
 
-    // Write directly into pre-allocated vec
-    let mut result = Vec::with_capacity(n);
+    // Write directly into pre-allocated vec. The expansion can exceed what the machine can
+    // hold: report that instead of aborting the process in the allocator.
+    let mut result = Vec::new();
+    if result.try_reserve_exact(n).is_err() {
+        return Err(format!(
+            "Cannot allocate {} cells at resolution {}",
+            n, target_resolution
+        ));
+    }
 
     for (i, &cell) in cells.iter().enumerate() {
         let resolution = resolutions[i];
